@@ -2,21 +2,23 @@
 # tools/run_seeded.sh [Cxx ...] : runs the claimed checks against every seeded change under
 # /verif/seeded (each applied to a scratch copy of /repo's working tree, removed afterwards) and
 # prints which check detects which change. Scratch copies live under $TMPDIR, outside /repo,/verif.
+# Seeds are processed in parallel (JOBS, default 6).
 set -uo pipefail
 here="$(cd "$(dirname "$0")/.." && pwd)"
+export here
 claimed=$(python3 -c "import json;print(' '.join(c['property_id'] for c in json.load(open('$here/MANIFEST.json'))['checks']))")
+export claimed
 filter="$*"
 out="$here/seeded/RESULTS.tsv"
 tmpres=$(mktemp)
-for d in "$here"/seeded/C*/; do
+one() {
+  d="$1"
   name=$(basename "$d"); prop=${name%%-*}
-  if [ -n "$filter" ] && ! echo " $filter " | grep -q " $prop "; then continue; fi
   tmp=$(mktemp -d "${TMPDIR:-/tmp}/verif-seed-XXXXXX")
   (cd /repo && tar --exclude=.git -cf - .) | (cd "$tmp" && tar xf -)
-  if ! (cd "$tmp" && patch -p1 -s < "$d/patch.diff" >/dev/null 2>&1); then echo -e "$name\t$prop\tPATCH-FAILED\t"; rm -rf "$tmp"; continue; fi
+  if ! (cd "$tmp" && patch -p1 -s < "$d/patch.diff" >/dev/null 2>&1); then echo -e "$name\t$prop\tPATCH-FAILED\t"; rm -rf "$tmp"; return; fi
   hits=""
   for c in $claimed; do
-    # own property first; other checks are informational
     o=$("$here/bin/verifcheck" "$c" --tier quick --repo "$tmp" --verif "$here" --no-write 2>&1); code=$?
     if [ $code -eq 1 ]; then
       keys=$(echo "$o" | grep -E '^  FAIL ' | sed -E 's/^  FAIL ([^ ]+).*/\1/' | sort -u | head -3 | tr '\n' ',')
@@ -26,8 +28,16 @@ for d in "$here"/seeded/C*/; do
     fi
   done
   own="missed"; echo "$hits" | grep -q " $prop\[" && own="DETECTED"
-  echo -e "$name\t$prop\t$own\t$hits" | tee -a "$tmpres"
+  echo -e "$name\t$prop\t$own\t$hits"
   rm -rf "$tmp"
+}
+export -f one
+list=()
+for d in "$here"/seeded/C*/; do
+  name=$(basename "$d"); prop=${name%%-*}
+  if [ -n "$filter" ] && ! echo " $filter " | grep -q " $prop "; then continue; fi
+  list+=("$d")
 done
+printf '%s\n' "${list[@]}" | xargs -P "${JOBS:-6}" -I{} bash -c 'one "$@"' _ {} | tee -a "$tmpres"
 if [ -z "$filter" ]; then sort "$tmpres" > "$out"; fi
 rm -f "$tmpres"
